@@ -99,6 +99,10 @@ RtCtx(rt, v, action) ==
              /\ MatchC(rt.re_ws, sWS) /\ (rt.deq_ws <=> sWS = <<"okC", v>>)
 
 HasF(ev, k) == k \in DOMAIN ev
+MembersOk(ms, store) ==
+  /\ {ms[i].uid : i \in 1..Len(ms)} = DOMAIN store
+  /\ \A i \in 1..Len(ms) : LET u == ms[i].uid
+                             IN RtEnt(ms[i].rt, [uid |-> u, attrs |-> store[u].attrs, tags |-> store[u].tags, anc |-> store[u].anc])
 Explained(ev) ==
   /\ ev.ev = "EntityJson"
   /\ CASE ev.kind = "entity" ->
@@ -124,6 +128,9 @@ Explained(ev) ==
                /\ ev.expl => dns = <<"okS", EjStoreOf({EjEntityVal(e) : e \in tm})>>
                /\ HasF(ev, "rt_ws") /\ HasF(ev, "rt_ns")
                /\ RtStore(ev.rt_ws, dws[2]) /\ RtStore(ev.rt_ns, dns[2])
+               \* each entity of a loaded store, serialised on its own, keeps ALL its ancestors (the store has closed them)
+               /\ HasF(ev, "members_ws") /\ HasF(ev, "members_ns")
+               /\ MembersOk(ev.members_ws, dws[2]) /\ MembersOk(ev.members_ns, dns[2])
        [] ev.kind = "context" ->
             LET j == FromWireJ(ev.json)
                 dws == SpecCtx(j, TRUE, ev.action)
